@@ -174,6 +174,38 @@ func c18eLocated(c *Ctx, nr, np *ssa.Function) {
 		}
 		return pretty(c.term(fn, v))
 	}
+	// a located error is handed up as it is: building a new error around the text of an error that
+	// already carries its place (NewParseError(otherToken, "…: "+err.Error())) moves the report
+	// to another line
+	nWrap := 0
+	for _, fn := range c.W.FuncsOf("parser") {
+		if isTestFunc(c.W, fn) {
+			continue
+		}
+		for _, ci := range callsIn(fn) {
+			if !ci.Common().IsInvoke() || ci.Common().Method.Name() != "Error" {
+				continue
+			}
+			// whose Error() text is it?
+			src := ci.Common().Value
+			var from *ssa.Function
+			switch x := src.(type) {
+			case *ssa.Extract:
+				if cl, ok := x.Tuple.(*ssa.Call); ok {
+					from = callee(cl)
+				}
+			case *ssa.Call:
+				from = callee(x)
+			}
+			if from == nil || !c.W.InRepo(from) {
+				continue
+			}
+			nWrap++
+			located := isParserFn(from) || fnLocated(from)
+			c.Check(!located, fmt.Sprintf("%s/error-rewrapped@%d", c.W.FuncKey(fn), c.T(fn).callOrd[ci]), c.W.Pos(ci.Pos()), "only errors without a source range are turned into text and located anew", fn.Name()+" takes the text of an error returned by "+from.Name()+", which already names its place in the source, to build a new error: the report would move to another token's line")
+		}
+	}
+	c.Check(nWrap >= 1, "located-errors/rewraps-scanned", "-", fmt.Sprintf("%d uses of err.Error() on errors of repo functions", nWrap), "no use of err.Error() on a repo function's error found (FormatText's is expected)")
 	nRet := 0
 	for _, fn := range c.W.FuncsOf("parser") {
 		if isTestFunc(c.W, fn) || !isParserFn(fn) {
